@@ -65,6 +65,47 @@ fn cuts<T: PartialEq>(path: &str, bytes: &[u8], full: &T, load: &dyn Fn() -> T, 
     s
 }
 
+// a save that dies half way: the process's file-size limit is lowered for the duration of the call (writes beyond it
+// fail with EFBIG, as on a full disk); only the save runs meanwhile, nothing else in this process writes
+extern "C" {
+    fn getrlimit(resource: i32, rlim: *mut [u64; 2]) -> i32;
+    fn setrlimit(resource: i32, rlim: *const [u64; 2]) -> i32;
+    fn signal(sig: i32, handler: usize) -> usize;
+}
+fn with_file_size_limit<T>(limit: u64, f: impl FnOnce() -> T) -> T {
+    const RLIMIT_FSIZE: i32 = 1;
+    const SIGXFSZ: i32 = 25;
+    unsafe {
+        let mut old = [0u64; 2];
+        getrlimit(RLIMIT_FSIZE, &mut old);
+        signal(SIGXFSZ, 1); // SIG_IGN: the write returns EFBIG instead of killing the process
+        let new = [limit, old[1]];
+        setrlimit(RLIMIT_FSIZE, &new);
+        let r = f();
+        setrlimit(RLIMIT_FSIZE, &old);
+        r
+    }
+}
+/// the old table is on disk; the new one is saved and dies after `k` bytes; what does load() say afterwards?
+/// E = refuses, S = exactly the new table, D = something else (silently)
+fn crash_points<T: PartialEq>(path: &str, old_bytes: &[u8], new_len: usize, new_full: &T, save_new: &dyn Fn(), load: &dyn Fn() -> T, every: usize) -> String {
+    let mut s = String::new();
+    for k in 0..new_len {
+        if every > 1 && k % every != 0 && k + 40 < new_len && k > 40 {
+            s.push('.');
+            continue;
+        }
+        std::fs::write(path, old_bytes).unwrap();
+        let _ = with_file_size_limit(k as u64, || catch(|| save_new()));
+        s.push(match catch(|| load()) {
+            None => 'E',
+            Some(t) => if &t == new_full { 'S' } else { 'D' },
+        });
+    }
+    let _ = std::fs::remove_file(path);
+    s
+}
+
 fn random_edge(rng: &mut Rng) -> Edge {
     match rng.below(6) {
         0 => Edge::Draw,
@@ -122,6 +163,22 @@ pub fn run(o: &Opts, _deck: &str) -> String {
             loads += bytes.len() as u64;
             files += 1;
             out.line(&format!("pg profile {} | {} {} {}", if saved.is_empty() { "-".into() } else { saved }, hex(&bytes), loaded.map(|l| if l.is_empty() { "-".into() } else { l }).unwrap_or("P".into()), cs));
+            // a checkpoint that dies while overwriting the previous one (C18): `bytes` is the table just saved (the new
+            // one); the previous checkpoint is another table of 2..60 rows
+            if t % 4 == 2 && nrows >= 2 && nrows <= 400 {
+                let old_rows: Vec<(u64, u64, u64, u64, f32, f32)> = (0..2 + rng.below(58))
+                    .map(|_| {
+                        let past = Path::from((0..rng.below(6)).map(|_| random_edge(&mut rng)).collect::<Vec<_>>());
+                        let fut = Path::from((0..1 + rng.below(5)).map(|_| random_edge(&mut rng)).collect::<Vec<_>>());
+                        (u64::from(past), u64::from(random_abs(&mut rng)), u64::from(fut), u64::from(random_edge(&mut rng)), 1.5f32, 0.25f32)
+                    })
+                    .collect();
+                Profile::verif_from_rows(&old_rows).save();
+                let old_bytes = read(&path);
+                let cp = crash_points(&path, &old_bytes, bytes.len(), &full, &|| p.save(), &|| bits(Profile::load(Street::Pref).verif_rows()), every.max(7));
+                loads += bytes.len() as u64;
+                out.line(&format!("pg crashsave profile | {} ok {}", hex(&bytes[..bytes.len().min(64)]), cp));
+            }
         }
         // ---------------- metric
         {
@@ -158,12 +215,14 @@ pub fn run(o: &Opts, _deck: &str) -> String {
             let path = Lookup::path(street);
             let bytes = read(&path);
             let loaded = catch(|| bits(&BTreeMap::from(Lookup::load(street))));
+            // typed comparison too: two Abstractions can share their 64-bit code and still be different values
+            let same = catch(|| BTreeMap::from(Lookup::load(street)) == map).map(|b| if b { "1" } else { "0" }).unwrap_or("-");
             let full = saved.clone();
             let cs = cuts(&path, &bytes, &full, &|| bits(&BTreeMap::from(Lookup::load(street))), every);
             std::fs::remove_file(&path).unwrap();
             loads += bytes.len() as u64;
             files += 1;
-            out.line(&format!("pg lookup {} | {} {} {}", saved, hex(&bytes), loaded.unwrap_or("P".into()), cs));
+            out.line(&format!("pg lookup {} | {} {} {} {}", saved, hex(&bytes), loaded.unwrap_or("P".into()), cs, same));
         }
         // ---------------- transitions (C18 only: its loader re-quantises the weights).
         // An empty table is skipped: it is written as transitions.river, which load() cannot read at all
@@ -193,6 +252,56 @@ pub fn run(o: &Opts, _deck: &str) -> String {
             loads += bytes.len() as u64;
             files += 1;
             out.line(&format!("pg transitions - | {} {} {}", hex(&bytes), if full.is_some() { "ok" } else { "P" }, cs));
+        }
+        // ---------------- encoder (C18): the four street lookups loaded together; one of them cut short.  Observed through
+        // Encoder::abstraction on two games whose observations are keys of the pre-flop resp. flop file
+        if t % 8 == 3 {
+            use robopoker::cards::hole::Hole;
+            use robopoker::gameplay::action::Action;
+            use robopoker::gameplay::game::Game;
+            use robopoker::mccfr::encoder::Encoder;
+            let h0 = rng.cards(2, DECK_MASK);
+            let h1 = rng.cards(2, DECK_MASK & !h0);
+            let fl = rng.cards(3, DECK_MASK & !(h0 | h1));
+            let g0 = Game::root().verif_with_holes([Hole::from(Hand::from(h0)), Hole::from(Hand::from(h1))]);
+            let g1 = g0.apply(Action::Call(g0.to_call())).apply(Action::Check).apply(Action::Draw(Hand::from(fl)));
+            let streets = [Street::Pref, Street::Flop, Street::Turn, Street::Rive];
+            for (si, street) in streets.iter().enumerate() {
+                let mut map: BTreeMap<Isomorphism, Abstraction> = (0..3 + rng.below(6))
+                    .map(|_| {
+                        let pk = rng.cards(2, DECK_MASK);
+                        let pb = rng.cards(street.n_observed(), DECK_MASK & !pk);
+                        (Isomorphism::from(Observation::from((Hand::from(pk), Hand::from(pb)))), Abstraction::from((*street, rng.below(50) as usize)))
+                    })
+                    .collect();
+                if si == 0 { map.insert(Isomorphism::from(g0.sweat()), Abstraction::from((*street, 5))); }
+                if si == 1 { map.insert(Isomorphism::from(g1.sweat()), Abstraction::from((*street, 6))); }
+                Lookup::from(map).save();
+            }
+            let probe = |e: &Encoder| format!("{}:{}", u64::from(e.abstraction(&g0)), u64::from(e.abstraction(&g1)));
+            let full = catch(|| probe(&Encoder::load(Street::Pref)));
+            for street in [Street::Pref, Street::Flop] {
+                let path = Lookup::path(street);
+                let bytes = read(&path);
+                let mut cs = String::new();
+                for n in 0..bytes.len() {
+                    std::fs::write(&path, &bytes[..n]).unwrap();
+                    cs.push(match catch(|| Encoder::load(Street::Pref)) {
+                        None => 'E',
+                        Some(e) => match catch(|| probe(&e)) {
+                            Some(x) if Some(&x) == full.as_ref() => 'S',
+                            _ => 'D',
+                        },
+                    });
+                }
+                std::fs::write(&path, &bytes).unwrap();
+                loads += bytes.len() as u64;
+                out.line(&format!("pg encoder {} | {} {} {}", street as isize, hex(&bytes), if full.is_some() { "ok" } else { "P" }, cs));
+            }
+            for street in streets {
+                let _ = std::fs::remove_file(Lookup::path(street));
+            }
+            files += 4;
         }
     }
     let _ = std::fs::remove_dir_all(&dir);
